@@ -792,6 +792,13 @@ class Fn:
                 fl = [e for e in st['p']['pr'] if e['k'] == 'field']
                 if fl and fl[-1].get('n') == field and (adt is None or fl[-1].get('adt') == adt):
                     out.append((b, i, st))
+                elif not fl and st['p']['pr'] and st['p']['pr'][0]['k'] == 'deref':
+                    # store through a reference held in a local: `*r = v` with r = &mut x.field  /  r = x.field (a &mut field)
+                    t = self.expr_place(st['p'], b, i)
+                    while t[0] in ('deref', 'ref'):
+                        t = t[1]
+                    if t[0] == 'field' and t[2] == field and (adt is None or strip_generics(t[3]) == adt):
+                        out.append((b, i, st))
         return out
 
     def field_mut_borrows(self, field, adt=None):
